@@ -72,6 +72,12 @@ pub struct Fault {
     pub kind: FaultKind,
     /// Position of the fault inside the file, in 1/1000 of the usable length.
     pub at_permille: u32,
+    /// `false`: the fault hits the first open of the operation only (the
+    /// environment heals before a retry). `true`: the file *stays* broken
+    /// while the operation lasts — every further open of the same path in
+    /// this operation meets the same fault (a truncated file on disk is still
+    /// truncated when it is read again).
+    pub persist: bool,
 }
 
 // ------------------------------------------------------- per-op context
@@ -88,9 +94,24 @@ pub struct OpCtx {
     pub host: String,
     pub host_reads: usize,
     pub opens: u32,
+    /// Path of the operation's first open (the file a persistent fault sits on).
+    pub fault_path: Option<std::path::PathBuf>,
     pub fault_fired: bool,
     pub bytes_read: u64,
+    /// Loop heads passed by this operation outside a scheduled run.
+    pub loop_heads: u64,
+    /// Opens after the first one that met the operation's persistent fault again.
+    pub persist_hits: u32,
 }
+
+/// Budgets of ONE operation executed outside a scheduled run (references,
+/// histories and twins run on the harness thread, where no step budget
+/// applies). No operation of the library opens more than a handful of files
+/// or passes more than a few thousand loop heads of the instrumented sources;
+/// one that exceeds these budgets "loops without bound" for the purposes of
+/// the checks and is ended by a panic, which the oracles see as a panic.
+pub const OP_OPEN_BUDGET: u32 = 20_000;
+pub const OP_LOOP_BUDGET: u64 = 50_000_000;
 
 thread_local! {
     static TID: std::cell::Cell<usize> = const { std::cell::Cell::new(usize::MAX) };
@@ -968,6 +989,14 @@ impl Env for Sim {
             } else {
                 self.yield_point(name, 0);
             }
+        } else if name.starts_with("loop:") {
+            let over = with_ctx(|c| {
+                c.loop_heads += 1;
+                c.loop_heads == OP_LOOP_BUDGET
+            });
+            if over == Some(true) && !std::thread::panicking() {
+                panic!("verif: loop without bound (one operation passed more than {OP_LOOP_BUDGET} loop heads)");
+            }
         }
     }
 
@@ -980,9 +1009,20 @@ impl Env for Sim {
             drop(st);
             self.yield_point("open", 0);
         }
+        if tid().is_none() && !std::thread::panicking() {
+            let over = with_ctx(|c| c.opens == OP_OPEN_BUDGET);
+            if over == Some(true) {
+                with_ctx(|c| c.opens += 1);
+                panic!("verif: loop without bound (one operation opened files more than {OP_OPEN_BUDGET} times)");
+            }
+        }
         let fault = with_ctx(|c| {
             c.opens += 1;
             if c.opens == 1 {
+                c.fault_path = Some(path.to_path_buf());
+                c.fault
+            } else if c.fault.is_some_and(|f| f.persist) && c.fault_path.as_deref() == Some(path) {
+                c.persist_hits += 1;
                 c.fault
             } else {
                 None
@@ -1014,13 +1054,13 @@ impl Env for Sim {
             registered: tid().is_some(),
         };
         match fault {
-            Some(Fault { kind: FaultKind::Eio, at_permille }) => f.eio_at = Some(at(at_permille)),
+            Some(Fault { kind: FaultKind::Eio, at_permille, .. }) => f.eio_at = Some(at(at_permille)),
             Some(Fault { kind: FaultKind::Eisdir, .. }) => f.eisdir = true,
-            Some(Fault { kind: FaultKind::Eintr, at_permille }) => {
+            Some(Fault { kind: FaultKind::Eintr, at_permille, .. }) => {
                 f.eintr_at = Some(at(at_permille))
             }
             Some(Fault { kind: FaultKind::Short, .. }) => f.short = true,
-            Some(Fault { kind: FaultKind::Trunc, at_permille }) => {
+            Some(Fault { kind: FaultKind::Trunc, at_permille, .. }) => {
                 f.end = at(at_permille);
                 // the truncation is a property of the file: it "fires" as
                 // soon as the file is opened
